@@ -41,8 +41,8 @@ def UpperCamel (s : Str) : Prop :=
 def byRule (U : UnicodeOps) (s : Str) : Option Rule → Outcome Str
   | some .lower => .ok (toAsciiLower s)
   | some .upper => .ok (toAsciiUpper s)
-  | some .pascal => .ok (toPascal s)
-  | some .camel => .ok (toCamel s)
+  | some .pascal => .ok (toPascal U s)
+  | some .camel => .ok (toCamel U s)
   | some .snake => .ok (toSnake U s)
   | some .screamingSnake => .ok (toScreamingSnake U s)
   | some .kebab => .ok (toKebab U s)
@@ -93,7 +93,7 @@ theorem C16_field (U : UnicodeOps) (hU : U.AsciiCorrect) (r : Str) (rule : Rule)
     intro c hc
     refine ⟨?_, hlow c hc⟩
     rw [hU.upper c (hascii c hc)]; exact fc_notUpper c (hs c hc)
-  have hpascal : toPascal s = fieldPascal s := pascalGo_field _ s hlow true
+  have hpascal : toPascal U s = fieldPascal s := pascalGo_field _ s hlow true
   cases rule with
   | none => simp only [byRule, applyField]; exact agrees_ok _ _ rfl
   | lower =>
@@ -116,13 +116,14 @@ theorem C16_variant (U : UnicodeOps) (hU : U.AsciiCorrect) (r : Str) (rule : Rul
     Agree (renameAllToCase U s (some r)) (applyVariant U rule s) := by
   rw [rename_by_rule, hr]
   obtain ⟨c, rest, rfl, hc, hrest, hshape⟩ := hs
-  -- when the all-caps flag is set, the tail consists of digits only
-  have hflag : (toAsciiUpper (c :: rest) == c :: rest) = true → ∀ x ∈ rest, isAsciiDigit x = true := by
+  -- when the all-caps flag is set (no lowercase letter), the tail consists of digits only
+  have hflag : isAllUpper U (c :: rest) = true → ∀ x ∈ rest, isAsciiDigit x = true := by
     intro hf
     rcases hshape with ⟨x, hx, hl⟩ | hd
-    · exact absurd (allUpper_fixed _ hf x (by simp [hx])) (lower_upperNe x hl)
+    · rw [isAllUpper_asciiLower U hU (c :: rest) x (by simp [hx]) hl] at hf
+      exact absurd hf (by decide)
     · exact hd
-  have hpascal : toPascal (c :: rest) = c :: rest := by
+  have hpascal : toPascal U (c :: rest) = c :: rest := by
     unfold toPascal
     simp only [pascalGo, upper_ne_us c hc, if_false, if_true, upper_upperId c hc]
     congr 1
@@ -213,6 +214,160 @@ example : renameAllToCase frenchU s%"straße" (some s%"UPPERCASE") = .ok s%"STRA
 /-- the remaining difference under `lowercase`: a field with a capital (outside the convention) -/
 example : renameAllToCase .ascii s%"fooBar" (some s%"lowercase") = .ok s%"foobar" ∧
     applyField .lower s%"fooBar" = .ok s%"fooBar" := by decide
+
+/-! ### the all-capitals special case (class `allcaps-special-case`; narrowed by the `fix:` commit 8f4a2d5)
+
+`to_pascal_case` / `to_snake_case` treat a name that is "all uppercase, such as URL or TOTP" specially
+(the tail is lower-cased, no `_` is inserted).  Before the repair "all uppercase" was
+`to_ascii_uppercase() == self`, true of every name without an *ASCII* lowercase letter (`ΑλφαΒήτα`); now it is
+`Known_allcaps`: no lowercase letter of any script.  The class is smaller, the divergence inside it
+stays (`URL`, `ΟΔΟΣ`); outside it the snake / kebab family is serde's for every identifier whatsoever. -/
+
+/-- the known class: the name has no lowercase letter (`char::is_lowercase`) of any script -/
+def Known_allcaps (U : UnicodeOps) (s : Str) : Prop := ∀ c ∈ s, U.isLower c = false
+
+instance (U : UnicodeOps) (s : Str) : Decidable (Known_allcaps U s) := by unfold Known_allcaps; infer_instance
+
+theorem known_allcaps_iff (U : UnicodeOps) (s : Str) : Known_allcaps U s ↔ isAllUpper U s = true :=
+  (isAllUpper_iff U s).symm
+
+/-- over ASCII names the class is the one the code tested before the repair -/
+theorem known_allcaps_ascii (U : UnicodeOps) (hU : U.AsciiCorrect) (s : Str) (h : ∀ c ∈ s, c.toNat < 128) :
+    Known_allcaps U s ↔ toAsciiUpper s = s := by
+  rw [known_allcaps_iff, isAllUpper_ascii U hU s h]; exact beq_iff_eq
+
+/-- `snakeGo` with the flag set inserts nothing -/
+theorem snakeGo_flag (U : UnicodeOps) (s : Str) : ∀ first, snakeGo U true first s = toAsciiLower s := by
+  induction s with
+  | nil => intro _; rfl
+  | cons c t ih => intro first; simp [snakeGo, toAsciiLower, ih]
+
+/-- serde's variant form inserts nothing exactly when no character after the first is a capital -/
+theorem variantSnakeGo_plain (U : UnicodeOps) (s : Str) :
+    variantSnakeGo U false s = toAsciiLower s ↔ ∀ c ∈ s, U.isUpper c = false := by
+  induction s with
+  | nil => simp [variantSnakeGo, toAsciiLower]
+  | cons c t ih =>
+    simp only [variantSnakeGo, toAsciiLower, List.map_cons, Bool.not_false, Bool.true_and, List.mem_cons,
+      forall_eq_or_imp]
+    cases hc : U.isUpper c with
+    | false =>
+      simp only [Bool.false_eq_true, if_false, List.nil_append, List.cons.injEq, true_and]
+      exact ih
+    | true =>
+      simp only [if_true, List.cons_append, List.nil_append, List.cons.injEq, Bool.true_eq_false, false_and, iff_false]
+      intro h
+      have hl := congrArg List.length h.2
+      have hlen : ∀ (b : Bool) (u : Str), (variantSnakeGo U b u).length ≥ u.length := by
+        intro b u
+        induction u generalizing b with
+        | nil => simp [variantSnakeGo]
+        | cons x u ihu =>
+          simp only [variantSnakeGo, List.length_append, List.length_cons]
+          have := ihu false
+          omega
+      have := hlen false t
+      simp only [List.length_cons, List.length_map] at hl
+      omega
+
+/-- **Variant position, the snake / kebab family, every identifier of every script, exactly**: typeshare's
+snake form is serde's iff the name is outside the known class, or is inside it but has no capital after the
+first character (then neither inserts a `_`).  No `AsciiCorrect`, no `UpperCamel`. -/
+theorem C16_variant_snake_exact (U : UnicodeOps) (s : Str) :
+    toSnake U s = variantSnake U s ↔ (¬ Known_allcaps U s ∨ ∀ c ∈ s.tail, U.isUpper c = false) := by
+  rw [known_allcaps_iff]
+  cases s with
+  | nil => simp [toSnake, variantSnake, snakeGo, variantSnakeGo]
+  | cons c rest =>
+    unfold toSnake variantSnake
+    simp only [snakeGo, variantSnakeGo, Bool.not_true, Bool.false_and, Bool.false_eq_true, if_false,
+      List.nil_append, List.cons.injEq, true_and, List.tail_cons]
+    cases hf : isAllUpper U (c :: rest) with
+    | false =>
+      simp only [Bool.false_eq_true, not_false_eq_true, true_or, iff_true]
+      exact snakeGo_variant U false rest (fun h => absurd h (by decide))
+    | true =>
+      simp only [not_true_eq_false, false_or]
+      rw [snakeGo_flag]
+      constructor
+      · intro h; exact (variantSnakeGo_plain U rest).1 h.symm
+      · intro h; exact ((variantSnakeGo_plain U rest).2 h).symm
+
+/-- **outside the known class the four snake / kebab rules give serde's variant name, for every identifier** -/
+theorem C16_variant_snake_family (U : UnicodeOps) (s : Str) (hk : ¬ Known_allcaps U s) (r : Str) (rule : Rule)
+    (hr : Rule.ofStr r = some rule)
+    (hfam : rule = .snake ∨ rule = .screamingSnake ∨ rule = .kebab ∨ rule = .screamingKebab) :
+    renameAllToCase U s (some r) = applyVariant U rule s := by
+  rw [rename_by_rule, hr]
+  have hsnake := (C16_variant_snake_exact U s).2 (Or.inl hk)
+  rcases hfam with rfl | rfl | rfl | rfl
+  · simp only [byRule, applyVariant, hsnake]
+  · simp only [byRule, applyVariant, toScreamingSnake, hsnake]
+  · simp only [byRule, applyVariant, toKebab, hsnake]
+  · simp only [byRule, applyVariant, toScreamingKebab, toKebab, hsnake, upper_replace_comm]
+
+/-- inside the class with a capital after the first character the family differs from serde (`URL`, `ΟΔΟΣ`) -/
+theorem C16_variant_snake_known_fails (U : UnicodeOps) (s : Str) (hk : Known_allcaps U s)
+    (hcap : ∃ c ∈ s.tail, U.isUpper c = true) :
+    ¬ Agree (renameAllToCase U s (some s%"snake_case")) (applyVariant U .snake s) := by
+  intro h
+  have h1 := h _ rfl
+  rw [rename_by_rule] at h1
+  have h2 : toSnake U s = variantSnake U s := Outcome.ok.inj h1
+  rcases (C16_variant_snake_exact U s).1 h2 with h3 | h3
+  · exact h3 hk
+  · obtain ⟨c, hc, hu⟩ := hcap
+    rw [h3 c hc] at hu
+    exact absurd hu (by decide)
+
+/-- **PascalCase / camelCase in variant position, any script**: a name outside the known class without `_`
+whose first character is not an ASCII lowercase letter is left as it is, like serde does -/
+theorem C16_variant_pascal_any (U : UnicodeOps) (c : Char) (rest : Str) (hk : ¬ Known_allcaps U (c :: rest))
+    (hc : asciiUpper c = c) (hus : ∀ x ∈ c :: rest, x ≠ '_') :
+    renameAllToCase U (c :: rest) (some s%"PascalCase") = applyVariant U .pascal (c :: rest) ∧
+    Agree (renameAllToCase U (c :: rest) (some s%"camelCase")) (applyVariant U .camel (c :: rest)) := by
+  have hf : isAllUpper U (c :: rest) = false := by
+    cases h : isAllUpper U (c :: rest) with
+    | false => rfl
+    | true => exact absurd ((known_allcaps_iff U _).2 h) hk
+  have hpascal : toPascal U (c :: rest) = c :: rest := by
+    unfold toPascal
+    rw [hf]
+    simp only [pascalGo, hus c (by simp), if_false, if_true, hc]
+    congr 1
+    exact pascalGo_id false rest (fun x hx => ⟨hus x (by simp [hx]), fun h => absurd h (by decide)⟩)
+  constructor
+  · rw [rename_by_rule]; show Outcome.ok (toPascal U (c :: rest)) = .ok (c :: rest); rw [hpascal]
+  · rw [rename_by_rule]; exact lowerFirst_agrees _ _ hpascal
+
+/-- a Unicode table that knows the Greek letters (what Rust `std` says of them) — not `ascii` -/
+def greekU : UnicodeOps :=
+  { UnicodeOps.ascii with
+    isUpper := fun c => isAsciiUpper c || (0x391 ≤ c.toNat && c.toNat ≤ 0x3A9)
+    isLower := fun c => isAsciiLower c || (0x3AC ≤ c.toNat && c.toNat ≤ 0x3CE) }
+
+/-- the repaired witnesses of `ascii-allcaps-test-on-unicode-names`, as positive regression examples: a Greek
+UpperCamelCase name is not all capitals any more, and typeshare gives serde's names (before the repair:
+`ΑλφαΒήτα` without the `_`, and `Οδόςa`) -/
+example : ¬ Known_allcaps greekU s%"ΑλφαΒήτα" ∧ ¬ Known_allcaps greekU s%"ΟδόςA" := by decide
+example : renameAllToCase greekU s%"ΑλφαΒήτα" (some s%"snake_case") = .ok s%"Αλφα_Βήτα" ∧
+    applyVariant greekU .snake s%"ΑλφαΒήτα" = .ok s%"Αλφα_Βήτα" := by decide
+example : renameAllToCase greekU s%"ΟδόςA" (some s%"PascalCase") = .ok s%"ΟδόςA" ∧
+    applyVariant greekU .pascal s%"ΟδόςA" = .ok s%"ΟδόςA" := by decide
+example : renameAllToCase greekU s%"ΑλφαΒήτα" (some s%"SCREAMING-KEBAB-CASE") =
+    applyVariant greekU .screamingKebab s%"ΑλφαΒήτα" :=
+  C16_variant_snake_family greekU _ (by decide) _ .screamingKebab (by decide) (by simp)
+example : renameAllToCase greekU s%"ΟδόςA" (some s%"PascalCase") = applyVariant greekU .pascal s%"ΟδόςA" :=
+  (C16_variant_pascal_any greekU 'Ο' s%"δόςA" (by decide) (by decide) (by decide)).1
+/-- what stays open: names that really are all capitals, of any script -/
+example : Known_allcaps greekU s%"ΟΔΟΣ" ∧ Known_allcaps greekU s%"URL" ∧ Known_allcaps .ascii s%"URL" := by decide
+example : renameAllToCase greekU s%"ΟΔΟΣ" (some s%"snake_case") = .ok s%"ΟΔΟΣ" ∧
+    applyVariant greekU .snake s%"ΟΔΟΣ" = .ok s%"Ο_Δ_Ο_Σ" := by decide
+example : ¬ Agree (renameAllToCase greekU s%"ΟΔΟΣ" (some s%"snake_case")) (applyVariant greekU .snake s%"ΟΔΟΣ") :=
+  C16_variant_snake_known_fails greekU _ (by decide) ⟨'Δ', by decide, by decide⟩
+/-- the ASCII table does not know the Greek letters: with it (as with the code before the repair) the name
+counts as all capitals — the theorems are about the table, the check supplies `std`'s -/
+example : Known_allcaps .ascii s%"ΑλφαΒήτα" := by decide
 
 /-! ### non-vacuity and the known divergences as kernel-checked witnesses -/
 example : FieldConv s%"address_line1" := by unfold FieldConv; decide
